@@ -506,8 +506,73 @@ def run_analysis(impl: Impl, rng, surface: str) -> tuple[str | None, str]:
     return None, name
 
 
+def atomic_analyses_predicate(seed: int) -> tuple[str, str, dict] | None:
+    """the read-only analyses on an ATOMISTIC network (Lennard-Jones clusters stored off-centre, molecular similarity:
+    distances are taken after alignment, which centres and rotates working copies): every stored number stays
+    bit-identical"""
+    import random
+    import warnings
+    from topsearch.analysis import minima_properties as mp, pair_selection as ps, graph_properties as gp, roughness, \
+        batch_selection as bs
+    from topsearch.data.coordinates import AtomicCoordinates
+    from topsearch.data.kinetic_transition_network import KineticTransitionNetwork
+    from topsearch.potentials.atomic import LennardJones
+    from topsearch.sampling.exploration import NetworkSampling
+    from topsearch.similarity.molecular_similarity import MolecularSimilarity
+    rng = random.Random(seed)
+    np.random.seed(seed % (2 ** 31))
+    n_atoms, n_min = 5, rng.choice([3, 4, 5])
+    base = np.array([[0, 0, 0], [1.1, 0, 0], [0.5, 0.95, 0], [0.5, 0.3, 0.9], [0.5, 0.3, -0.9]], dtype=float)
+    k = KineticTransitionNetwork()
+    for i in range(n_min):
+        x = base + np.array([[rng.uniform(-0.15, 0.15) for _ in range(3)] for _ in range(n_atoms)])
+        x = x + np.array([rng.uniform(-3, 3) for _ in range(3)])          # stored away from the origin
+        k.add_minimum(x.flatten(), -9.0 + 0.3 * i)
+    for _ in range(n_min):
+        u, v = rng.randrange(n_min), rng.randrange(n_min)
+        k.add_ts((base + rng.uniform(0.2, 0.4)).flatten() + 1.0, -7.5 + rng.random(), u, v)
+    snap = lambda: ([(int(l), k.G.nodes[l]["coords"].tobytes(), np.float64(k.G.nodes[l]["energy"]).tobytes()) for l in k.G.nodes],
+                    sorted((min(int(u), int(v)), max(int(u), int(v)), k.G[u][v]["coords"].tobytes(),
+                            np.float64(k.G[u][v]["energy"]).tobytes()) for u, v in k.G.edges()), k.n_minima, k.n_ts)
+    before = snap()
+    coords = AtomicCoordinates(["C"] * n_atoms, np.array(k.get_minimum_coords(0)).copy())
+    sim = MolecularSimilarity(0.05, 1e-3, weighted=rng.random() < 0.5, allow_inversion=rng.random() < 0.5)
+    samp = NetworkSampling(k, coords, None, None, None, sim)
+    pot = LennardJones()
+    analyses = [("distance_matrix", lambda: mp.get_distance_matrix(k, sim, coords)),
+                ("distance_from_minimum", lambda: mp.get_distance_from_minimum(k, sim, coords, 0)),
+                ("closest_enumeration", lambda: ps.closest_enumeration(k, sim, coords, 2)),
+                ("connect_unconnected", lambda: ps.connect_unconnected(k, sim, coords, 1)),
+                ("select_minima", lambda: samp.select_minima(coords, "ClosestEnumeration", 1)),
+                ("get_invalid_minima", lambda: mp.get_invalid_minima(k, pot, coords)),
+                ("bounds_minima", lambda: mp.get_bounds_minima(k, coords)),
+                ("connectivity", lambda: (gp.unconnected_component(k), gp.all_minima_connected(k))),
+                ("roughness", lambda: roughness.roughness_metric(k)),
+                ("select_batch", lambda: bs.select_batch(k, 2, "Lowest", False, 0.5, []))]
+    rng.shuffle(analyses)
+    for name, fn in analyses:
+        try:
+            with warnings.catch_warnings(), np.errstate(all="ignore"):
+                warnings.simplefilter("ignore")
+                fn()
+        except Exception as e:          # noqa: BLE001 - an analysis that does not apply to this network is not the point here
+            continue
+        if snap() != before:
+            return ("analysis-writes-store:" + name + ":atomistic",
+                    f"read-only analysis `{name}` on a network of {n_min} five-atom clusters (molecular similarity) changed a "
+                    "stored coordinate / energy / connection", {"atomic_seed": seed, "analysis": name})
+    return None
+
+
 def predicates(ctx: Ctx) -> None:
     rng = ctx.rng
+    for _ in range(ctx.scale(4, 20)):
+        sd = rng.randrange(1 << 30)
+        r = atomic_analyses_predicate(sd)
+        ctx.stats.case({"stream": "predicate-atomistic-analyses", "seed": sd}, True)
+        if r:
+            ctx.fail(r[0], r[1], r[2])
+            break
     # corpus first: the minimal histories of past failures
     corpus = [
         ("corpus:second-ts-on-pair", [("addmin",), ("addmin",), ("addts", 0, 1), ("addts", 1, 0)]),
@@ -570,6 +635,11 @@ def replay(ctx: Ctx, data: dict) -> bool:
     ops = [tuple(tuple(x) if isinstance(x, list) and x and isinstance(x[0], list) else x for x in o)
            for o in data.get("raw_ops", [])]
     ops = [tuple(o) for o in ops]
+    if "atomic_seed" in data:
+        r = atomic_analyses_predicate(int(data["atomic_seed"]))
+        if r:
+            print(f"  {r[0]}: {r[1]}")
+        return r is None
     if "bad_op" in data:
         b = data["bad_op"]
         bad = tuple([tuple(x) for x in e] if isinstance(e, list) and e and isinstance(e[0], list) else e for e in b)
